@@ -481,14 +481,21 @@ def asp_template(ctx, name: str) -> None:
         okg = any(pol and raise_class(gv, r)[0] == "ValueError" and to_cmp(gv.res.resolve(test, n.id), True) is not None and (to_cmp(gv.res.resolve(test, n.id), True).rel in (">=", ">")) for n, test, pol, r in gv.raising_guards())
         ctx.rep.check(okg, rule, f"{g.qualname}/raises", "more than one selected column raises ValueError", "require_single_column_selection does not raise ValueError for several columns", where=g.where())
     # volume slots: filled from the validated volumes in order, one pop per selected slot
-    pops = [cs for cs in fv.calls() if isinstance(cs.call.func, ast.Attribute) and cs.call.func.attr == "pop"]
+    from .common import with_helpers
+
+    pops = [cs for v_ in with_helpers(ctx, fv) for cs in v_.calls() if isinstance(cs.call.func, ast.Attribute) and cs.call.func.attr == "pop"]
     ok_pop = len(pops) == 1 and pops[0].call.args and isinstance(pops[0].call.args[0], ast.Constant) and pops[0].call.args[0].value == 0
     ctx.rep.check(ok_pop, rule, f"{f.qualname}/volume-order", "volumes are consumed front to back, one per selected slot", "the per-tip volumes are not consumed front to back (pop(0)) once per selected slot", where=w)
     # the mask fold is unconditional over all validated tips
-    for n in fv.cfg.nodes:
-        if n.kind == "stmt" and isinstance(n.ast, ast.AugAssign) and isinstance(n.ast.op, (ast.BitOr, ast.Add)) and isinstance(n.ast.target, ast.Name) and is_name(holes[0].expr, n.ast.target.id):
-            loops = [h for h in fv.cfg.enclosing_loops(n.id) if fv.cfg.nodes[h].kind == "for"]
-            cond = fv.controlling(n.id, within=fv.cfg.loop_body[loops[-1]]) if loops else []
+    mask_views = with_helpers(ctx, fv)
+    for mv in mask_views:
+      for n in mv.cfg.nodes:
+        is_mask = isinstance(n.ast, ast.AugAssign) and isinstance(n.ast.op, (ast.BitOr, ast.Add)) and isinstance(n.ast.target, ast.Name) and (
+            (mv is fv and is_name(holes[0].expr, n.ast.target.id)) or (mv is not fv and any(isinstance(s2, ast.Attribute) and s2.attr == "value" for s2 in ast.walk(n.ast.value))))
+        if n.kind == "stmt" and is_mask:
+            fv_ = mv
+            loops = [h for h in fv_.cfg.enclosing_loops(n.id) if fv_.cfg.nodes[h].kind == "for"]
+            cond = fv_.controlling(n.id, within=fv_.cfg.loop_body[loops[-1]]) if loops else []
             ctx.rep.check(not cond, rule, f"{f.qualname}/mask-all-tips", "every given tip is part of the mask",
                           f"a tip enters the mask only when `{stmt_key(fv.cfg.nodes[cond[0][0]].ast)[:40] if cond else ''}`: mask, volume slots and well selection no longer describe the same tips", where=f.where(n.ast))
     # validator returns (wells_list, labware_position, volume_list, liquid_class, tecan_tips) from its own parameters
